@@ -50,8 +50,8 @@ PID = 'C11'
 # ---- tunables ---------------------------------------------------------------
 #               ForEach cases, control cases, processes, watchdog (s)
 TIERS = {
-    'quick': dict(foreach=420, control=520, procs=8, watchdog=120),
-    'thorough': dict(foreach=5200, control=6400, procs=12, watchdog=240),
+    'quick': dict(foreach=360, control=480, procs=8, watchdog=180),
+    'thorough': dict(foreach=3000, control=4000, procs=12, watchdog=300),
 }
 WORKERS_PER_COMPILER = 3
 ERR_FLOOR = 1e-6          # numerical floor of a degree-2 distance near 0
@@ -919,7 +919,7 @@ def walk(nodes: list[dict[str, Any]]):
 
 
 # ================================================================== execution
-class CaseTimeout(Exception):
+class CaseTimeout(BaseException):  # not swallowed by `except Exception` in the client
     pass
 
 
@@ -956,6 +956,9 @@ def run_one(comp: Any, case: dict[str, Any], tmpdir: str, watchdog: int) -> dict
         res['status'], res['rebuild'] = 'timeout', True
         return res
     except RuntimeError as e:
+        if isinstance(e.__cause__, CaseTimeout):
+            res['status'], res['rebuild'] = 'timeout', True
+            return res
         raised = remote_error(e)
         res['rebuild'] = True
         if not raised['has_tb']:
@@ -1036,7 +1039,9 @@ def run_batch(arg: tuple[int, str, list[tuple[str, int]]]) -> list[dict[str, Any
                 except Exception as e:  # harness failure: never a verdict
                     r = {'w': [], 'c': {}, 'info': {}, 'status': 'harness_error', 'rebuild': True,
                          'err': '%s: %s @ %s' % (type(e).__name__, str(e)[:200], core.short_tb(e))}
-                if r['status'] != 'infrastructure':
+                if r['status'] == 'timeout' and attempt == 0:
+                    pass  # design: a case that timed out is re-run once, alone
+                elif r['status'] != 'infrastructure':
                     break
                 wl.close_compiler(comp)
                 comp = None
